@@ -294,7 +294,12 @@ class XsdAttribute(XsdComponent, ValidationMixin[Optional[str], DecodedValueType
             return str(value)
 
     def raw_encode(self, obj: Any, validation: str, context: EncodeContext) -> Optional[str]:
-        return self.type.raw_encode(obj, validation, context)
+        result = self.type.raw_encode(obj, validation, context)
+        if self.fixed is not None and result is not None and result != self.fixed and \
+                self.type.text_decode(result) != self.type.text_decode(self.fixed):
+            msg = _("attribute {0!r} has a fixed value {1!r}").format(self.name, self.fixed)
+            context.validation_error(validation, self, msg, obj)
+        return result
 
 
 class Xsd11Attribute(XsdAttribute):
